@@ -67,9 +67,17 @@ func init() {
 			}
 			return in.runFunction(fn, args, nil)
 		}
+		if zoneLocal(in) {
+			// "zone:local": the frozen reading is located in time.Local, which
+			// the harness has set to a time.FixedZone (intr_time_zone.go)
+			return StructV{[]Value{term.BVC(64, 0), term.BVC(64, uint64(fakeNowUnix+unixToInternal)), timeLocalValue(in, fn)}}
+		}
 		return StructV{[]Value{term.BVC(64, 0), term.BVC(64, uint64(fakeNowUnix+unixToInternal)), Ptr{}}}
 	})
 	hostTime := func(in *Interp, v Value) time.Time {
+		if zoneLocal(in) {
+			return hostTimeZoned(in, v)
+		}
 		s, ok := v.(StructV)
 		if !ok || len(s.F) != 3 {
 			panic(in.bug("time.Time value expected"))
